@@ -44,7 +44,16 @@ def regname(code):
     return "RCQM"[code // 16] + str(code % 16)
 
 
-def to_proto(src, macros=None) -> ProtoSubroutine:
+LABEL_STYLES = ["L{n}", "R{n}_LOOP", "M{n}_IS_ONE", "Q{n}x", "C{n}_", "EXIT{n}", "Q", "M_{n}"]
+
+
+def lname(n, style=0):
+    """label names; styles > 0 begin like a register name without being one"""
+    t = LABEL_STYLES[style % len(LABEL_STYLES)]
+    return t.format(n=n) if "{n}" in t else t + "_" * n
+
+
+def to_proto(src, macros=None, incremental=False) -> ProtoSubroutine:
     cmds = []
     for it in src:
         if it["t"] == "label":
@@ -69,21 +78,29 @@ def to_proto(src, macros=None) -> ProtoSubroutine:
                 a, s, e = flat.pop(0), flat.pop(0), flat.pop(0)
                 ops.append(ArraySlice(Address(a["v"]), val(s), val(e)))
         cmds.append(ICmd(instruction=GenericInstr[it["mn"].upper()], operands=ops))
+    if incremental and len(cmds) >= 2:
+        # the IR is built in steps: the object exists first, commands are added to its list afterwards (front and back)
+        cut = len(cmds) // 2
+        proto = ProtoSubroutine(commands=cmds[cut:cut + 1], app_id=0, netqasm_version=(0, 0))
+        proto.commands.extend(cmds[cut + 1:])
+        for c_ in reversed(cmds[:cut]):
+            proto.commands.insert(0, c_)
+        return proto
     return ProtoSubroutine(commands=cmds, app_id=0, netqasm_version=(0, 0))
 
 
-def to_text(src, macros: Dict[str, str], bracket_array: bool) -> str:
+def to_text(src, macros: Dict[str, str], bracket_array: bool, lstyle: int = 0) -> str:
     """Render as NetQASM text.  `macros` maps a rendered token (e.g. 'R0' or '7')
     to a macro key; such tokens are written as $key."""
     lines = ["# NETQASM 0.0", "# APPID 0"]
     for tok, key in macros.items():
         lines.append(f"# DEFINE {key} {tok}")
     def tk(o):
-        t = regname(o["v"]) if o["k"] == "reg" else f"L{o['v']}" if o["k"] == "lab" else str(o["v"])
+        t = regname(o["v"]) if o["k"] == "reg" else lname(o["v"], lstyle) if o["k"] == "lab" else str(o["v"])
         return f"${macros[t]}" if t in macros else t
     for it in src:
         if it["t"] == "label":
-            lines.append(f"L{it['n']}:")
+            lines.append(f"{lname(it['n'], lstyle)}:")
             continue
         flat = list(it["ops"])
         words = []
@@ -205,6 +222,18 @@ def assemble_all(src, rng, mode) -> List[Tuple[str, Any, str]]:
             out.append(("ir-again", [dict(zip(("mn", "ops"), isa.flatten(i))) for i in sub.instructions], ""))
         except Exception as ex:
             out.append(("ir-again", None, f"{type(ex).__name__}: {ex}"[:160]))
+    try:
+        sub = assemble_subroutine(to_proto(src, incremental=True))
+        out.append(("ir-built-in-steps", [dict(zip(("mn", "ops"), isa.flatten(i))) for i in sub.instructions], ""))
+    except Exception as ex:
+        out.append(("ir-built-in-steps", None, f"{type(ex).__name__}: {ex}"[:160]))
+    if any(it["t"] == "label" for it in src):
+        ls = 1 + rng.randrange(len(LABEL_STYLES) - 1)
+        try:
+            sub = parse_text_subroutine(to_text(src, {}, False, lstyle=ls))
+            out.append(("text-register-like-labels", [dict(zip(("mn", "ops"), isa.flatten(i))) for i in sub.instructions], ""))
+        except Exception as ex:
+            out.append(("text-register-like-labels", None, f"{type(ex).__name__}: {ex}"[:160]))
     toks = sorted({regname(o["v"]) for it in src if it["t"] == "cmd" for o in it["ops"] if o["k"] == "reg"})
     variants = [("text", {}, False)]
     if toks:
@@ -280,6 +309,9 @@ def run(prop: str, tier: str) -> int:
                                     describe(row, clause))},
                   f"{name} via {path}: {clause} after block {v[3]}; source:\n{src_text}\nassembled: {[i['mn'] + ' ' + ' '.join(map(str, i['ops'])) for i in row['tgt']]} {row['err']}",
                   {"src": row["src"], "path": path})
+        lost = [i for i, r_ in by_id.items() if r_["err"] and i not in bad]
+        if lost:
+            raise C.MachineryError(f"AsmRefine gave no verdict for {len(lost)} programs the assembler refused, e.g. {by_id[lost[0]]['err']}")
         okset = set(res.ok_ids) - set(bad)
         missing = set(by_id) - set(res.ok_ids) - set(bad)
         # cases that ended 'unspecified' on every valuation print nothing; they are simply not counted
